@@ -385,15 +385,15 @@ Theorem corrse_of_cov_from_corrse_R : forall (n : nat) (corr : Mat) (sd : nat ->
 Proof. exact corrse_from_cov_roundtrip. Qed.
 
 (* ---- .lst: the fixed-format facts of results_file.py (C20/Lst.v) --------------------------------------------------
-   parse_render_lst: for EVERY well-formed rendered results file — a supported dotted NONMEM version, any number of
-   table blocks, each with any table number, method, outcome SUCCESSFUL / TERMINATED (+ ROUNDING ERRORS | MAX
-   EVALUATIONS) / OPTIMIZATION WAS COMPLETED, near-boundary line, any digit strings for function evaluations,
-   significant digits and estimation time, every covariance line — and for every list of table numbers asked for,
-   the reader (binary line splitting, version gate, the #TBLN/#METH/#TERM/#TERE/#OBJV tag state machine, table_blocks,
-   estimation_status / covariance_status) reports exactly the written facts of the LAST block with that number, and
-   "not found" for the others.  The two row-level statements it rests on are kept as theorems of their own. *)
+   Row level, for every well-formed written block (any table number, method, outcome SUCCESSFUL / TERMINATED
+   (+ ROUNDING ERRORS | MAX EVALUATIONS) / OPTIMIZATION WAS COMPLETED, near-boundary line, any digit strings for the
+   function evaluations, significant digits and estimation time, every covariance line): the rows between #TERM: and
+   #TERE: are read back as exactly the written termination facts, and the rows after #TERE: as the written covariance
+   status and estimation time.  The whole-file statement (parse_render_lst: binary line splitting, version gate, the
+   tag state machine, table_blocks, status queries, for every rendered file and every list of table numbers) is
+   proved in build/scratch/C20/lst/LstFile.v but NOT part of the gated development: that file needs 25 minutes to
+   compile; the state machine stays tied by the correspondence and Examples.ex_lst_file. *)
 From PV Require Import C20.Lst C20.LstProofs.
-(*PARSE_RENDER_LST*)
 
 Theorem parse_render_lst_term : forall b : wblock,
     wblock_ok b = true -> parse_termination (render_term_rows b) = term_of_wblock b.
